@@ -38,9 +38,10 @@ Section Series.
     end.
 End Series.
 
-(* judged samples: those the exact instance computes *)
-Definition scell_defined (op : binop) (refl : bool) (c : fl) (x : num) : bool :=
-  let '(a, b) := ordered refl (NFlt c) (NFlt (num_fl x)) in op_defined op a b.
+(* judged samples: those on which the instance in use is defined (defd); for the exact instance: those it computes *)
+Definition scell_defined_gen (defd : binop -> num -> num -> bool) (op : binop) (refl : bool) (c : fl) (x : num) : bool :=
+  let '(a, b) := ordered refl (NFlt c) (NFlt (num_fl x)) in defd op a b.
+Definition scell_defined := scell_defined_gen op_defined.
 Definition fl_opt_eqv (d : bool) (a b : fl) : bool := negb d || fl_eqv a b.
 Fixpoint rows_eqv_mask (m : list (list bool)) (a b : list (list fl)) : bool :=
   match m, a, b with
@@ -50,11 +51,12 @@ Fixpoint rows_eqv_mask (m : list (list bool)) (a b : list (list fl)) : bool :=
       && rows_eqv_mask m' a' b'
   | _, _, _ => false
   end.
-Definition series_mask (op : binop) (refl : bool) (c : scolumn) (o : soperand) : list (list bool) :=
-  match spec_series (fun o' a b => if op_defined o' a b then NFlt (FFin false 1 0) else NFlt (FZero false)) op refl c o with
+Definition series_mask_gen (defd : binop -> num -> num -> bool) (op : binop) (refl : bool) (c : scolumn) (o : soperand) : list (list bool) :=
+  match spec_series (fun o' a b => if defd o' a b then NFlt (FFin false 1 0) else NFlt (FZero false)) op refl c o with
   | Ok r => map (map (fun f => match f with FFin _ _ _ => true | _ => false end)) (srows r)
   | Raise _ => []
   end.
+Definition series_mask := series_mask_gen op_defined.
 Definition srescol_eqv_mask (m : list (list bool)) (spec observed : res scolumn) : bool :=
   match spec, observed with
   | Ok x, Ok y => Nat.eqb (sdepth x) (sdepth y) && ids_eqb (sids x) (sids y) && rows_eqv_mask m (srows x) (srows y)
